@@ -107,7 +107,8 @@ FileOrder(F) == LET pr == Prnt(F) IN PreOrderFrom(pr, KidsOf(pr, -1), pr.n + 1)
 
 \* value of property column i for referent r
 ColumnValue(F, P, i, r) == P[i].values[PosInClass(F, r)]
-ColumnsOf(F, P, r) == {i \in DOMAIN P : P[i].present /\ HasClassId(F, P[i].class)
+\* (a chunk that ends after its name or carries an unknown type id is skipped, per the document)
+ColumnsOf(F, P, r) == {i \in DOMAIN P : P[i].present /\ P[i].t # "?" /\ HasClassId(F, P[i].class)
                                          /\ InstOfClassId(F, P[i].class) = InstChunkOfRef(F, r)}
 
 -----------------------------------------------------------------------------
@@ -141,6 +142,29 @@ Quantised(x, q) ==
     ELSE IF Leq(<<127, 128, 0, 1>>, x) THEN TRUE                          \* NaN: any byte
     ELSE IF Leq(P1, x) THEN q = 255                                       \* >= 1 (incl. +inf)
     ELSE \E k \in 0..254 : Leq(K255[k + 1], x) /\ Leq(x, K255[k + 2]) /\ q \in {k, k + 1}
+
+\* exact widenings of the legacy narrower numeric encodings (docs/compatibility.md)
+SignExtend(w4) == (IF w4[1] >= 128 THEN <<255, 255, 255, 255>> ELSE <<0, 0, 0, 0>>) \o w4
+
+RECURSIVE BitsOf(_, _)
+BitsOf(n, k) == IF k = 0 THEN <<>> ELSE BitsOf(n \div 2, k - 1) \o <<n % 2>>
+ByteBits(w) == LET RECURSIVE G(_) G(i) == IF i > Len(w) THEN <<>> ELSE BitsOf(w[i], 8) \o G(i + 1) IN G(1)
+BitsVal(bs) == LET RECURSIVE V(_, _) V(i, acc) == IF i > Len(bs) THEN acc ELSE V(i + 1, 2 * acc + bs[i]) IN V(1, 0)
+BitsBytes(bs) == [j \in 1..(Len(bs) \div 8) |-> BitsVal(SubSeq(bs, 8 * j - 7, 8 * j))]
+Zeros(k) == [i \in 1..k |-> 0]
+
+\* f32 bit pattern -> bit pattern of the same real number as f64 (NaN payloads shifted, as the hardware does)
+WidenF32(w) ==
+    LET b  == ByteBits(w)
+        s  == b[1]
+        e  == BitsVal(SubSeq(b, 2, 9))
+        m  == SubSeq(b, 10, 32)
+        lead == IF \E i \in 1..23 : m[i] = 1 THEN CHOOSE i \in 1..23 : m[i] = 1 /\ \A j \in 1..(i - 1) : m[j] = 0 ELSE 0
+    IN BitsBytes(
+         IF e = 255 THEN <<s>> \o BitsOf(2047, 11) \o m \o Zeros(29)
+         ELSE IF e = 0 /\ lead = 0 THEN <<s>> \o Zeros(63)
+         ELSE IF e = 0 THEN <<s>> \o BitsOf(897 - lead, 11) \o SubSeq(m, lead + 1, 23) \o Zeros(29 + lead)
+         ELSE <<s>> \o BitsOf(e + 896, 11) \o m \o Zeros(29))
 
 JoinNul(tags) == LET RECURSIVE J(_)
                      J(i) == IF i > Len(tags) THEN <<>>
@@ -219,6 +243,8 @@ WireOK(w, wt, pv, order, sstr) ==
       [] V = "Content"    -> wt = "Content" /\ w = (IF v[1] = 2 THEN <<2, IF v[2] > 0 THEN order[v[2]] ELSE -1>> ELSE v)
       [] V = "EnumItem"   -> wt = "Enum" /\ w = v[2]
       [] V = "FontMig"    -> wt = "Font"
+      [] V = "Int64" /\ wt = "Int32"     -> SignExtend(w) = v         \* narrower legacy encodings
+      [] V = "Float64" /\ wt = "Float32" -> WidenF32(w) = v
       [] V = "Color3" /\ wt = "Color3uint8" -> \A c \in 1..3 : Quantised(v[c], w[c])
       [] OTHER            -> wt = V /\ w = v
 
